@@ -312,6 +312,43 @@ class BoolPath(t.NamedTuple):
     result: t.Any  # True / False / "raise" / "other"
 
 
+class _InlineFlags(ast.NodeTransformer):
+    """``flag = <expr>`` ... ``if flag`` -> ``if <expr>`` in a loop-free function: a local bound exactly once, by a plain
+    assignment at statement level, to an expression whose names are not rebound afterwards, stands for that expression
+    wherever it is read (its defining statement stays; the paths are enumerated over conditions, not over names)."""
+
+    def __init__(self, fn: ast.AST):
+        stores: dict[str, list[ast.AST]] = {}
+        for n in ast.walk(fn):
+            if isinstance(n, ast.Name) and isinstance(n.ctx, (ast.Store, ast.Del)):
+                stores.setdefault(n.id, []).append(n)
+            elif isinstance(n, ast.arg):
+                stores.setdefault(n.arg, []).append(n)
+        self.flags: dict[str, ast.AST] = {}
+        for n in ast.walk(fn):
+            if isinstance(n, ast.Assign) and len(n.targets) == 1 and isinstance(n.targets[0], ast.Name) and len(stores.get(n.targets[0].id, ())) == 1:
+                v = n.value
+                if not (isinstance(v, (ast.Compare, ast.BoolOp)) or (isinstance(v, ast.UnaryOp) and isinstance(v.op, ast.Not)) or (isinstance(v, ast.Call) and dotted(v.func) == "bool")):
+                    continue  # only values that are truth values by their form
+                if any(isinstance(x, (ast.NamedExpr, ast.Yield, ast.YieldFrom, ast.Await, ast.Lambda)) for x in ast.walk(v)):
+                    continue
+                later = any(getattr(x, "lineno", 0) > n.lineno or (getattr(x, "lineno", 0) == n.lineno and x is not n.targets[0] and getattr(x, "col_offset", 0) > n.col_offset) for nm in ast.walk(v) if isinstance(nm, ast.Name) for x in stores.get(nm.id, ()))
+                if not later:
+                    self.flags[n.targets[0].id] = v
+        self.depth = 0
+
+    def visit_Name(self, n: ast.Name) -> ast.AST:
+        if isinstance(n.ctx, ast.Load) and n.id in self.flags and self.depth < 8:
+            import copy
+
+            self.depth += 1
+            try:
+                return self.visit(copy.deepcopy(self.flags[n.id]))
+            finally:
+                self.depth -= 1
+        return n
+
+
 def bool_paths(fn: ast.AST, what: str) -> list[BoolPath]:
     """every acyclic path of a loop-free predicate function as (branch literals, returned truth value).
     ``return <expr>`` counts as ``if <expr>: return True / else: return False``; ``a <= b < c`` as a conjunction."""
@@ -320,6 +357,7 @@ def bool_paths(fn: ast.AST, what: str) -> list[BoolPath]:
     tree = ast.parse(ast.unparse(fn))
     f2 = tree.body[0]
     f2.decorator_list = []  # type: ignore[attr-defined]
+    f2 = _InlineFlags(f2).visit(f2)
     f2 = _BoolReturns().visit(f2)
     ast.fix_missing_locations(f2)
     cfg = CFG(f2)
@@ -508,6 +546,144 @@ def cond_atoms(test: ast.AST, label: str) -> list[tuple[ast.AST, str]]:
             left = c
         return out
     return [(e, label)]
+
+
+def _bool_const(e: ast.AST | None) -> bool | None:
+    return e.value if isinstance(e, ast.Constant) and isinstance(e.value, bool) else None
+
+
+def truth_core(e: ast.AST) -> tuple[ast.AST, bool] | None:
+    """(X, same polarity) when the truth value of ``e`` is the truth value of X (or its negation) by the form of the
+    expression alone: ``bool(X)``, ``(n := X)``, ``True if X else False`` / ``False if X else True``,
+    ``X is True`` / ``X is not False`` / ``X == True`` ... with X itself a truth value (see truth_selector)."""
+    if isinstance(e, ast.Call) and dotted(e.func) == "bool" and len(e.args) == 1 and not e.keywords and not isinstance(e.args[0], ast.Starred):
+        return e.args[0], True
+    if isinstance(e, ast.NamedExpr):
+        return e.value, True
+    if isinstance(e, ast.IfExp):
+        a, b = _bool_const(e.body), _bool_const(e.orelse)
+        if a is not None and b is not None and a != b:
+            return e.test, a
+    if isinstance(e, ast.Compare) and len(e.ops) == 1 and isinstance(e.ops[0], (ast.Is, ast.IsNot, ast.Eq, ast.NotEq)):
+        for x, c in ((e.left, e.comparators[0]), (e.comparators[0], e.left)):
+            k = _bool_const(c)
+            if k is not None and truth_selector(x) is not None:
+                return x, k == isinstance(e.ops[0], (ast.Is, ast.Eq))
+    return None
+
+
+def expand_literal(A: FA, e: ast.AST, label: str, depth: int = 0, keep: t.Callable[[ast.Name], bool] | None = None) -> list[tuple[ast.AST, str]]:
+    """the condition literals that certainly hold when ``e`` evaluates to ``label``, with *flags expanded to what they
+    test*: a local bound once (wherever: before the enclosing ifs, in another branch that dominates) stands for its
+    defining expression, ``bool(X)`` / a walrus / ``True if X else False`` for X, a negation flips the label, a true
+    conjunction / false disjunction gives each member.  A name that is not such a flag (parameter, several bindings)
+    and everything else stays as the literal it is; so does a name that ``keep`` asks to keep (the variable a caller
+    is asking about is not to be replaced by the call it was bound to)."""
+    out: list[tuple[ast.AST, str]] = []
+    for a, l in cond_atoms(e, label):
+        if depth < 8:
+            if isinstance(a, ast.Name) and not (keep is not None and keep(a)):
+                try:
+                    v = A.single_value(a)
+                except AnalysisError:
+                    v = None
+                if v is not None:
+                    out += expand_literal(A, v, l, depth + 1, keep)
+                    continue
+            tc = truth_core(a)
+            if tc is not None:
+                out += expand_literal(A, tc[0], l if tc[1] else flip(l), depth + 1, keep)
+                continue
+        out.append((a, l))
+    return out
+
+
+def guard_literals(A: FA, at: ast.AST | Node, extra: t.Iterable[tuple[ast.AST, str]] = ()) -> list[tuple[ast.AST, str]]:
+    """expanded literals (see expand_literal) of every test edge dominating ``at`` plus the given extra conditions."""
+    out: list[tuple[ast.AST, str]] = []
+    for t_, l in A.guards(at):
+        if t_.ast is None:
+            continue
+        out += expand_literal(A, t_.ast, l) if t_.kind == "test" else [(t_.ast, l)]
+    for e_, l in extra:
+        out += expand_literal(A, e_, l)
+    return out
+
+
+def truth_leaves(A: FA, e: ast.AST, depth: int = 0) -> list[ast.AST]:
+    """the expressions whose truth values the truth of ``e`` is a boolean function of (and / or / not, flags and
+    bool() looked through)."""
+    e, _ = strip_not(e)
+    if depth < 8:
+        if isinstance(e, ast.BoolOp):
+            return [x for v in e.values for x in truth_leaves(A, v, depth + 1)]
+        if isinstance(e, ast.Name):
+            try:
+                v = A.single_value(e)
+            except AnalysisError:
+                v = None
+            if v is not None:
+                return truth_leaves(A, v, depth + 1)
+        tc = truth_core(e)
+        if tc is not None:
+            return truth_leaves(A, tc[0], depth + 1)
+    return [e]
+
+
+def misread(A: FA, lits: t.Iterable[tuple[ast.AST, str]], is_target: t.Callable[[ast.AST], bool], about: t.Callable[[ast.AST], bool] | None = None) -> ast.AST | None:
+    """a condition among ``lits`` that depends on the target value through something other than its truth (compared,
+    passed on, indexed ...): such a guard is *not understood*, which callers must not report as "not guarded"."""
+    for e_, _l in lits:
+        for leaf in truth_leaves(A, e_):
+            if not is_target(leaf) and mentions(A, leaf, about or is_target):
+                return leaf
+    return None
+
+
+def guard_literals_at(A: FA, at: ast.AST | Node, extra: t.Iterable[tuple[ast.AST, str]] = ()) -> list[tuple[ast.AST, str, Node]]:
+    """guard_literals, each with the CFG node in which the literal's expression is *evaluated*: the test itself, or the
+    statement that binds the flag it was expanded from (facts about names are facts about the bindings visible there)."""
+    n0 = at if isinstance(at, Node) else A.node(at)
+    out: list[tuple[ast.AST, str, Node]] = []
+    for t_, l in A.guards(n0):
+        if t_.ast is None:
+            continue
+        if t_.kind != "test":
+            out.append((t_.ast, l, t_))
+            continue
+        for e_, l2 in expand_literal(A, t_.ast, l):
+            out.append((e_, l2, A.cfg.node_of(e_) or t_))
+    for e_, l in extra:
+        for e2, l2 in expand_literal(A, e_, l):
+            out.append((e2, l2, A.cfg.node_of(e2) or n0))
+    return out
+
+
+def proving_edges(A: FA, pred: t.Callable[[ast.AST, str, Node], bool]) -> list[tuple[Node, str]]:
+    """test edges (node, label) one of whose expanded literals (literal, label, node of evaluation) satisfies ``pred``."""
+    out = []
+    for t_ in A.cfg.tests():
+        if t_.kind != "test" or t_.ast is None:
+            continue
+        for l in ("T", "F"):
+            if any(pred(e_, l2, A.cfg.node_of(e_) or t_) for e_, l2 in expand_literal(A, t_.ast, l)):
+                out.append((t_, l))
+    return out
+
+
+def mentions(A: FA, e: ast.AST, pred: t.Callable[[ast.AST], bool], depth: int = 0) -> bool:
+    """``pred`` holds for a sub-expression of ``e``, looking through locals bound once."""
+    for x in ast.walk(e):
+        if pred(x):
+            return True
+        if isinstance(x, ast.Name) and isinstance(x.ctx, ast.Load) and depth < 6:
+            try:
+                v = A.single_value(x)
+            except AnalysisError:
+                v = None
+            if v is not None and mentions(A, v, pred, depth + 1):
+                return True
+    return False
 
 
 def expand_returns(fn: ast.AST) -> list[tuple[ast.Return, ast.AST | None, list[tuple[ast.AST, str]]]]:
